@@ -3,6 +3,7 @@
 //! Usage: dverif <engine>   with engine in { codec, ... }
 
 mod codec;
+mod client;
 mod proto;
 mod stream;
 
